@@ -361,6 +361,8 @@ class Ctx:
             return n["op"] + self.term(n["e"], depth + 1)
         if k == "index":
             return "%s[%s]" % (self.term(n["e"], depth + 1), self.term(n["i"], depth + 1))
+        if k == "array":
+            return "[" + ",".join(self.term(e, depth + 1) for e in n["es"]) + "]"
         if k == "tup":
             return "(" + ",".join(self.term(e, depth + 1) for e in n["es"]) + ")"
         if k == "block" and not n.get("stmts") and "expr" in n:
